@@ -157,7 +157,8 @@ func bigValues() []value {
 		}
 	}
 	// sequential key families: the same keys recur in loads of different sizes (stale-slot reuse scenarios)
-	for _, rng := range [][2]int64{{0, 16}, {0, 17}, {0, 32}, {0, 33}, {16, 32}, {16, 33}, {1, 17}} {
+	// (the last two ranges: negative keys - the slot of a key is key mod table size)
+	for _, rng := range [][2]int64{{0, 16}, {0, 17}, {0, 32}, {0, 33}, {16, 32}, {16, 33}, {1, 17}, {-17, 0}, {-20, 13}} {
 		for _, kt := range []tbin.Type{tbin.I32, tbin.STRING} {
 			m := &tbin.Val{T: tbin.MAP, KT: kt, ET: tbin.I32}
 			for k := rng[0]; k < rng[1]; k++ {
